@@ -51,8 +51,13 @@ def render(shape):
                             for j in range(shape["submodules"])) if k == 0 else ""
         if k == 0:
             sub_iface += "  interface gen0\n    !! generic interface\n    module procedure hs0\n  end interface gen0\n"
+            # every type has a constructor: a generic interface of the type's name
+            sub_iface += "".join(f"  interface ty{j}\n    !! constructor of ty{j}\n    module procedure mk{j}\n  end interface ty{j}\n" for j in range(shape["types"]))
         use = f"  use mo{k - 1}\n" if k > 0 else ""
         impl = "".join(type_impl) if k == 0 else ""
+        if k == 0:
+            impl += "".join(f"  function mk{j}(v) result(t)\n    !! makes a ty{j}\n    integer, intent(in) :: v\n    type(ty{j}) :: t\n    t%comp{j} = v\n  end function mk{j}\n"
+                            for j in range(shape["types"]))
         units.append(f"module mo{k}\n  !! module {k} see [[mo0]]\n{use}  implicit none\n  integer :: mv{k} = 1\n    !! variable\n    !!\n    !! second paragraph about the variable\n{spec}{sub_iface}contains\n"
                      f"  subroutine hs{k}(a)\n    !! module procedure {k}\n    !!\n    !! second paragraph about module procedure {k}\n    integer :: a\n      !! argument\n      !!\n      !! second paragraph about the argument\n  end subroutine hs{k}\n{impl}end module mo{k}\n")
     for j in range(shape["submodules"]):
